@@ -22,6 +22,9 @@ CHECKS = {
    text="Grow/equal/shrink requests interleaved with all other operations: after growth old bytes and snapshot images are unchanged, the new range reads zero and takes writes, the size persists across reopen; shrink must be refused with no effect (chain-scoped digest). Controller-level refusal belongs to the cluster engine."),
  "C17": dict(engine="repsim", design="4 C17", technique="deterministic simulation: random state-transition prefixes then engine calls and unadvertised REST actions, side-effect digests",
    text="Random open/close/mode/rebuilding transitions followed by engine calls and REST actions: writes change data only when open and RW/WO, nothing is served when closed, removal and set-revision-counter need RW, and every REST action that GET /v1/replicas/1 does not advertise for the current state must be refused (status>=400) without side effects (chain, data, counter, mode, files). Found the write-before-mode-check defect (fixed). Attach-only-when-closed belongs to the cluster engine."),
+ "C15": dict(engine="rpcsim", design="4 C15, 3.5", technique="deterministic simulation: real rpc.Client vs scripted peer (reply order, error/EOF/unknown/duplicate replies, reset, FIN, torn/corrupt frames, black holes) + codec round trip under arbitrary segmentation",
+   note="Trusted base: the simulated TCP stream (FIFO, no loss inside a stream) and the harness's independent frame parser; rpc timeouts run on the bubble's fake clock. Samples schedules and fault points; not exhaustive.",
+   text="The real rpc.Client runs over a simulated connection against a scripted peer that answers pending requests in script-chosen order and kind, and injects resets, FIN, half-close, torn and corrupt frames and one-way black holes at script-chosen points; each completed operation must carry its own reply (payload is a function of its own offset), errors must surface as errors, every pending and later operation must finish within its own deadline + 3 s of simulated time after a fault, the close channel must be notified, and with a fault-free peer everything succeeds. Wire.Write -> independent parser -> Wire.Read round-trips generated frames under 6 segmentation policies; real client against real rpc.Server with a recording DataProcessor checks end-to-end attribution."),
 }
 
 def main():
@@ -39,7 +42,8 @@ def main():
         hooks=dict(guard="none in /repo: checks instrument a scratch copy of the working tree at check time (tools/instrument, rules R1-R8); /repo carries only 'fix:' commits",
                    enable="./check <ID> copies /repo's working tree to a scratch dir, runs bin/instrument on the copy and builds the simulator against it with go1.26.8",
                    baseline_off_cmd="cd /repo && go test -vet=off -count=1 ./util/...", source_commits=[], add_only=True),
-        engines=[dict(name="repsim", path="sim/repsim.go", serves_properties=["C01","C06","C10","C11","C12","C16","C17"], kind_free_text="one real replica on real ext4 files in a synctest bubble, model-based, puncher schedule controlled")],
+        engines=[dict(name="rpcsim", path="sim/rpcsim.go", serves_properties=["C15"], kind_free_text="real rpc.Client/Server/Wire over simulated TCP with a scripted peer"),
+                 dict(name="repsim", path="sim/repsim.go", serves_properties=["C01","C06","C10","C11","C12","C16","C17"], kind_free_text="one real replica on real ext4 files in a synctest bubble, model-based, puncher schedule controlled")],
         checks=checks, not_applicable=na,
         notes="VERIF_SEED selects the search seed; VERIF_BUDGET (seconds) and VERIF_WORKERS override the tier defaults. Exit 2 = build/instrumentation/watchdog trouble.")
     json.dump(m, open(os.path.join(V, "MANIFEST.json"), "w"), indent=1)
